@@ -166,6 +166,7 @@ class Acc:
     def result(self):
         return {"evals": self.evals, "transitions": self.transitions, "traces": self.traces,
                 "nontriv": self.nontriv, "undefined": self.undefined_n, "states": len(self.states),
+                "state_set": list(self.states),
                 "outcomes": self.outcomes, "features": dict(self.features),
                 "fail_total": self.fail_total, "fail_by_sig": dict(self.fail_by_sig),
                 "failures": self.failures, "samples": self.samples, "extra": dict(self.extra),
@@ -217,6 +218,8 @@ def _worker(args):
     try:
         mod = load_check(prop)
         r = run_one_shard(mod, shard, tier, seed)
+        if not getattr(mod, "MERGE_STATES", False):
+            r.pop("state_set", None)
         r["outcomes"] = list(r["outcomes"]) if len(r["outcomes"]) < 200000 else list(r["outcomes"])[:200000]
         return ("ok", r)
     except BaseException:
@@ -270,7 +273,9 @@ def run_check(prop, tier, jobs=None, seed=None, out=sys.stdout):
     outcomes = set()
     failures, samples = [], []
     extra = collections.Counter()
+    state_union = set()
     for r in results:
+        state_union.update(r.get("state_set") or ())
         for k in ("evals", "transitions", "traces", "nontriv", "undefined", "states", "fail_total"):
             tot[k] += r[k]
         features.update(r["features"])
@@ -279,6 +284,8 @@ def run_check(prop, tier, jobs=None, seed=None, out=sys.stdout):
         outcomes.update(r["outcomes"])
         failures.extend(r["failures"])
         samples.extend(r["samples"][:1])
+    if getattr(mod, "MERGE_STATES", False):
+        tot["states"] = len(state_union)      # shards may reach the same state: count the union
     # samples: a handful, which ones depends on the seed
     if not samples:
         samples = [next(iter(mod.cases(shards[0], tier)))] if hasattr(mod, "cases") else [shards[0]]
